@@ -22,8 +22,9 @@ async fn open_epoch(s: &mut Sim, g: &mut G) -> u64 {
 }
 
 async fn run(mut s: Sim, mut rng: Rng, _len: usize) -> Sim {
-    let which = ((s.n >> 32) - 1) % 16;   // history id: consecutive histories run the scripts in turn
+    let which = ((s.n >> 32) - 1) % 18;   // history id: consecutive histories run the scripts in turn
     if (7..12).contains(&which) { return unconfigured(s, rng, which).await; }
+    if which == 17 { return feature_unconfigured(s, rng).await; }
     let mut g = bootstrap_with(&mut s, &mut rng, None).await;
     // make the configuration deterministic where the scripts depend on it
     for st in [RdSetting::DebtAccountant(g.debt_acc.clone()), RdSetting::RewardsAccountant(g.rew_acc.clone()), RdSetting::ContributorManager(g.cmgr.clone()),
@@ -225,6 +226,23 @@ async fn run(mut s: Sim, mut rng: Rng, _len: usize) -> Sim {
                 let ix = s.rd_configure_contributor_recipients(&mgr, &svc, &l); s.op(tx(vec![ix])).await;
             }
         }
+        16 => { // C04: rewards of the genesis epoch cannot be finalized before the configured minimum number of epochs (2, then 3) has
+                // elapsed, also while fewer epochs than that exist at all
+            for min in [2u8, 3] {
+                let ix = s.rd_configure(&g.admin, RdSetting::MinEpochs(min)); s.op(tx(vec![ix])).await; g.min_epochs = min as u64;
+                let e = open_epoch(&mut s, &mut g).await;
+                let t = s.def_tree(0, vec![]);
+                let ix = s.rd_configure_debt(&g.debt_acc, e, 0, 0, t.root); s.op(tx(vec![ix])).await;
+                let ix = s.rd_finalize_debt(&g.debt_acc, e, &g.payer); s.op(tx(vec![ix])).await;
+                let rt = s.def_tree(1, vec![Leaf::Reward { contributor: g.svcs[0].clone(), unit_share: 1_000_000_000, packed: 0 }]);
+                let ix = s.rd_configure_rewards(&g.rew_acc, e, 1, rt.root); s.op(tx(vec![ix])).await;
+                for _ in 0..min {
+                    let ix = s.rd_finalize_rewards(&g.payer, e); s.op(tx(vec![ix])).await;      // too early until `min` epochs exist after e
+                    let _ = open_epoch(&mut s, &mut g).await;
+                }
+                let ix = s.rd_finalize_rewards(&g.payer, e); s.op(tx(vec![ix])).await;
+            }
+        }
         15 => { // C11 / C12 / C04 / C16: a rewards root with one leaf more than the declared number of contributors (the surplus leaf can
                 // never be distributed, so no relay fee beyond the prepaid ones is ever paid); rewards figures re-posted after their
                 // finalisation (refused, also with the null root); the block flag set twice in a row stays set
@@ -239,6 +257,8 @@ async fn run(mut s: Sim, mut rng: Rng, _len: usize) -> Sim {
             let rt = s.def_tree(1, rl.clone());
             let ix = s.rd_configure_rewards(&g.rew_acc, e, 3, rt.root); s.op(tx(vec![ix])).await;
             let _ = open_epoch(&mut s, &mut g).await;
+            // C04: a zero-debt sweep (no swap needed) of the epoch the pointer names, before rewards are final: refused
+            let ix = s.rd_sweep(e, &K::SwapMock, &g.fills); s.op(tx(vec![ix])).await;
             let ix = s.rd_finalize_rewards(&g.payer, e); s.op(tx(vec![ix])).await;
             // after finalisation the figures are frozen: more contributors, another root, the null root with none
             let rt2 = s.def_tree(1, vec![Leaf::Reward { contributor: g.svcs[1].clone(), unit_share: 1_000_000_000, packed: 0 }]);
@@ -297,6 +317,8 @@ async fn run(mut s: Sim, mut rng: Rng, _len: usize) -> Sim {
             let rt = s.def_tree(1, vec![Leaf::Reward { contributor: v.clone(), unit_share: 1_000_000_000, packed: 0 }]);
             both!(s.rd_configure_rewards(&g.rew_acc, e, 1, rt.root));
             let _ = open_epoch(&mut s, &mut g).await;
+            // C04: the sweep of the epoch the pointer names, attempted between debt and rewards finalisation: refused
+            let ix = s.rd_sweep(e, &K::SwapMock, &g.fills); s.op(tx(vec![ix])).await;
             both!(s.rd_finalize_rewards(&g.payer, e));
             both!(s.sw_buy(&g.fills, &K::Ata(b(&g.buyer), b(&K::Mint)), &g.buyer, &g.users[8], 70_000, a));
             both!(s.rd_sweep(e, &K::SwapMock, &g.fills));
@@ -372,5 +394,26 @@ async fn unconfigured(mut s: Sim, mut rng: Rng, which: u64) -> Sim {
     let ix = s.rd_configure(&g.admin, fix); s.op(tx(vec![ix])).await;
     g.clock += 400; s.op(Op::SetClock(g.clock)).await;
     let ix = s.rd_initialize_distribution(&g.debt_acc, &g.payer, 0); s.op(tx(vec![ix])).await;      // accepted
+    s
+}
+
+/// C10: write-offs cannot be enabled while the write-off feature's activation epoch was never configured (script 17);
+/// after the admin configures it the same instruction is accepted
+async fn feature_unconfigured(mut s: Sim, mut rng: Rng) -> Sim {
+    let mut g = bootstrap_with(&mut s, &mut rng, Some(10)).await;
+    for st in [RdSetting::CalcGrace(1), RdSetting::InitGrace(1), RdSetting::Paused(false)] { let ix = s.rd_configure(&g.admin, st); s.op(tx(vec![ix])).await; }
+    g.calc_grace = 1; g.init_grace = 1;
+    let e = open_epoch(&mut s, &mut g).await;
+    let t = s.def_tree(0, vec![Leaf::Debt { node: g.nodes[6].clone(), amount: 9_000 }]);
+    let ix = s.rd_configure_debt(&g.debt_acc, e, 1, 9_000, t.root); s.op(tx(vec![ix])).await;
+    let ix = s.rd_finalize_debt(&g.debt_acc, e, &g.payer); s.op(tx(vec![ix])).await;
+    let ix = s.rd_enable_write_off(e, &g.payer); s.op(tx(vec![ix])).await;                       // refused: feature never configured
+    let p = s.proof(&t, 0).unwrap();
+    let ix = s.rd_write_off(&g.debt_acc, e, &g.nodes[6].clone(), e, 9_000, &p); s.op(tx(vec![ix])).await;   // refused: not enabled
+    let ix = s.rd_configure(&g.admin, RdSetting::FeatureActivation(5)); s.op(tx(vec![ix])).await;
+    let ix = s.rd_enable_write_off(e, &g.payer); s.op(tx(vec![ix])).await;                       // refused: activation epoch not reached
+    let ix = s.rd_configure(&g.admin, RdSetting::FeatureActivation(1)); s.op(tx(vec![ix])).await;
+    let ix = s.rd_enable_write_off(e, &g.payer); s.op(tx(vec![ix])).await;                       // accepted
+    let ix = s.rd_write_off(&g.debt_acc, e, &g.nodes[6].clone(), e, 9_000, &p); s.op(tx(vec![ix])).await;
     s
 }
